@@ -299,6 +299,12 @@ void run(Src &src, Case &c)
         }
     }
     c.count("comparisons", comparisons);
+    if (getenv("VP_SWEEP_LIST") != nullptr) { // discovery aid: list every failing pair instead of failing the case
+        for (const auto &f : c.alsoFailed) {
+            printf("BAD %s :: %s\n", f.first.c_str(), f.second.c_str());
+        }
+        c.alsoFailed.clear();
+    }
 }
 
 void setMode(const std::string &, long bound)
